@@ -573,6 +573,7 @@ func ints(n int) []int {
 func families(thorough bool) []family {
 	all5 := []int{cAbsent, cText, cEmpty, cPar1, cPar2}
 	all6 := ints(nChoices)
+	lite4 := []int{cAbsent, cText, cEmpty, cPar1}
 	layouts := ints(nLayouts)
 	sq := []int{nfSingle}
 	if !thorough {
@@ -599,9 +600,9 @@ func families(thorough bool) []family {
 		{name: "B3", maxL: 3, blocks: []int{0, 1, 2}, choices: all6, layouts: layouts, nameForms: sq, junks: []int{0}, ctxs: []int{0}, pads: []int{0}},
 		{name: "C", maxL: 4, blocks: []int{0}, choices: all6, fixed: [3]int{0, cPar1, cText}, layouts: layouts, nameForms: ints(nNameForms), junks: []int{0, 1, 2}, ctxs: []int{0, 1, 2}, pads: []int{0, 1, 2}},
 		{name: "D", maxL: 4, blocks: []int{0, 2}, choices: all5, fixed: [3]int{0, cPar2, 0}, layouts: layouts, nameForms: []int{nfSingle, nfVar, nfTernary}, junks: []int{2}, ctxs: []int{0}, pads: []int{1, 2}},
-		{name: "A2b5", maxL: 5, blocks: []int{0, 1}, choices: all5, layouts: layouts, nameForms: sq, junks: []int{0}, ctxs: []int{0}, pads: []int{0}},
-		{name: "A2i5", maxL: 5, blocks: []int{0, 2}, choices: all5, layouts: layouts, nameForms: sq, junks: []int{0}, ctxs: []int{0}, pads: []int{0}},
-		{name: "B4", maxL: 4, blocks: []int{0, 1, 2}, choices: []int{cAbsent, cText, cEmpty, cPar1}, layouts: layouts, nameForms: []int{nfVar}, junks: []int{0}, ctxs: []int{0}, pads: []int{0}},
+		{name: "A2b5", maxL: 5, blocks: []int{0, 1}, choices: lite4, layouts: layouts, nameForms: sq, junks: []int{0}, ctxs: []int{0}, pads: []int{0}},
+		{name: "A2i5", maxL: 5, blocks: []int{0, 2}, choices: lite4, layouts: layouts, nameForms: sq, junks: []int{0}, ctxs: []int{0}, pads: []int{0}},
+		{name: "B4", maxL: 4, blocks: []int{0, 1, 2}, choices: lite4, layouts: layouts, nameForms: []int{nfVar}, junks: []int{0}, ctxs: []int{0}, pads: []int{0}},
 	}
 }
 
@@ -701,5 +702,20 @@ func main() {
 		},
 		QuickDeadline: 150, ThoroughDeadline: 840,
 		Run: run,
+		Extra: func(tier string, cov map[string]interface{}) {
+			var fs []string
+			for _, f := range families(tier == "thorough") {
+				var bl, chs []string
+				for _, b := range f.blocks {
+					bl = append(bl, blockNames[b])
+				}
+				for _, c := range f.choices {
+					chs = append(chs, choiceName[c])
+				}
+				fs = append(fs, fmt.Sprintf("%s: chains<=%d templates, blocks %s over {%s}, %d layouts, %d name forms, %d junk variants, %d contexts, %d padding variants",
+					f.name, f.maxL, strings.Join(bl, "+"), strings.Join(chs, ","), len(f.layouts), len(f.nameForms), len(f.junks), len(f.ctxs), len(f.pads)))
+			}
+			cov["families"] = fs
+		},
 	})
 }
